@@ -338,6 +338,15 @@ func (r *Recorder) Violation(msg, kind string, replay any) string {
 	return p
 }
 
+// FatalViolation records a violation, writes the statistics and ends the
+// process. For use from a watchdog when the test goroutine itself can no longer
+// make progress.
+func (r *Recorder) FatalViolation(msg, kind string, replay any) {
+	r.Violation(msg, kind, replay)
+	r.flush()
+	os.Exit(1)
+}
+
 // NumViolations returns the number of final violations so far.
 func (r *Recorder) NumViolations() int {
 	r.mu.Lock()
